@@ -20,6 +20,8 @@ def sh(cmd, cwd=None, timeout=3000):
 def src(pid, m):
     if m.startswith("r2"):  # second round of sub-agents
         return f"/tmp/seed/out2-{pid}/{m[2:]}"
+    if m.startswith("r3"):  # third round
+        return f"/tmp/seed/out3-{pid}/{m[2:]}"
     return f"/tmp/seed/out-{pid}/{m}"
 
 
